@@ -77,6 +77,7 @@ var probeKinds = []probeKind{
 	// prefix with annotated routes of Messaging (/v1/...) and Files
 	// (/files/...): they must survive whatever happens to those services
 	{"raw", "http", "json", "GET /v1/ts/unary", tsvc + ".UnaryCall"}, {"raw", "http", "json", "POST /files/ts/unary", tsvc + ".UnaryCall"},
+	{"raw", "http", "json", "POST /v1/ts/unary", tsvc + ".UnaryCall"}, // two verbs on one node
 	// four sibling variable nodes under one trie node, owned by three services
 	// (two of them by one method): removing one owner must take exactly its
 	// nodes away
@@ -90,7 +91,8 @@ var probeKinds = []probeKind{
 // registryRules are the service-config rules every registrysim mux carries.
 var registryRules = []RuleSpec{{
 	Selector: tsvc + ".UnaryCall", Verb: "get", Template: "/v1/ts/unary",
-	Additional: []RuleSpec{{Verb: "post", Template: "/files/ts/unary", Body: "*"}, {Verb: "get", Template: "/zz/{response_status.message=c/*}"}},
+	// (the first additional binding puts a second verb on the node of the main one)
+	Additional: []RuleSpec{{Verb: "post", Template: "/v1/ts/unary", Body: "*"}, {Verb: "post", Template: "/files/ts/unary", Body: "*"}, {Verb: "get", Template: "/zz/{response_status.message=c/*}"}},
 }, {
 	Selector: svcMessaging + ".GetMessageOne", Verb: "get", Template: "/zz/{name=a/*}",
 	Additional: []RuleSpec{{Verb: "get", Template: "/zz/{name=b/*}"}, {Verb: "get", Template: "/grpc.testing.TestService/UnaryCall/y/{name}"}},
